@@ -254,19 +254,33 @@ def encCell : MpTy → Cell → Bytes
 
 def strBytes (s : String) : Bytes := s.toUTF8.toList.map (·.toNat)
 
+/-- envelope keys as bytes (checked against the regenerated `mpEnvKeys` by `C19_msgpack_thresholds`) -/
+def kSuccess : Bytes := [115, 117, 99, 99, 101, 115, 115]
+def kColumns : Bytes := [99, 111, 108, 117, 109, 110, 115]
+def kTypes : Bytes := [116, 121, 112, 101, 115]
+def kData : Bytes := [100, 97, 116, 97]
+def kRowCount : Bytes := [114, 111, 119, 95, 99, 111, 117, 110, 116]
+def kExecMs : Bytes := [101, 120, 101, 99, 117, 116, 105, 111, 110, 95, 116, 105, 109, 101, 95, 109, 115]
+def kTimestamp : Bytes := [116, 105, 109, 101, 115, 116, 97, 109, 112]
+
+/-- everything after the column-name array -/
+def mpEnvelopeTail (cols : List (Bytes × Bytes × MpTy × List Cell)) (rowCount : Nat) (execMs : Nat)
+    (timestamp : Bytes) : Bytes :=
+  encStr kTypes ++ encArrLen cols.length ++ (cols.flatMap fun c => encStr c.2.1) ++
+  encStr kData ++ encArrLen cols.length ++
+    (cols.flatMap fun c => encArrLen rowCount ++ c.2.2.2.flatMap (encCell c.2.2.1)) ++
+  encStr kRowCount ++ encUint rowCount ++
+  encStr kExecMs ++ encUint execMs ++
+  encStr kTimestamp ++ encStr timestamp
+
 /-- body written by streamMsgPackFromBatches (profile == nil): `cols` = (name, wire type name, encoder
 class, column cells already concatenated over the retained batches). -/
 def mpEnvelope (cols : List (Bytes × Bytes × MpTy × List Cell)) (rowCount : Nat) (execMs : Nat)
     (timestamp : Bytes) : Bytes :=
   encMapLen mpEnvMapLen ++
-  encStr (strBytes "success") ++ encBool true ++
-  encStr (strBytes "columns") ++ encArrLen cols.length ++ (cols.flatMap fun c => encStr c.1) ++
-  encStr (strBytes "types") ++ encArrLen cols.length ++ (cols.flatMap fun c => encStr c.2.1) ++
-  encStr (strBytes "data") ++ encArrLen cols.length ++
-    (cols.flatMap fun c => encArrLen rowCount ++ c.2.2.2.flatMap (encCell c.2.2.1)) ++
-  encStr (strBytes "row_count") ++ encUint rowCount ++
-  encStr (strBytes "execution_time_ms") ++ encUint execMs ++
-  encStr (strBytes "timestamp") ++ encStr timestamp
+  encStr kSuccess ++ encBool true ++
+  encStr kColumns ++ encArrLen cols.length ++ (cols.flatMap fun c => encStr c.1) ++
+  mpEnvelopeTail cols rowCount execMs timestamp
 
 /-! ## SPEC: UTF-8 (RFC 3629) -/
 
